@@ -138,9 +138,11 @@ class Series(ContainerOperand):
                     )
 
         length = len(index_final) #type: ignore
-        if isinstance(element, tuple):
+        if isinstance(element, tuple) or (dtype is None
+                and hasattr(element, '__len__')
+                and not isinstance(element, (str, bytes, np.ndarray))):
             array = np.empty(length, dtype=DTYPE_OBJECT)
-            # this is the only way to insert tuples
+            # this is the only way to insert tuples, lists and other sized objects as single elements
             for i in range(length):
                 array[i] = element
         else:
